@@ -242,6 +242,7 @@ mod ir_builder {
                 = op_asm()
                 / op_wide_unary()
                 / op_wide_binary()
+                / op_wide_modular_operation()
                 / op_wide_cmp()
                 / op_retd()
                 / op_branch()
